@@ -271,6 +271,13 @@ func wakeScenarios() []wakeScenario {
 		{"ack-of-ordered-predecessors-on-two-subscriptions-second", func(e *Env, run func(*Op) *Obs) (string, func()) {
 			return twoSubAck(e, run, "projects/p/subscriptions/o1")
 		}},
+		{"publish-to-subscription-with-delivery-delay", func(e *Env, run func(*Op) *Obs) (string, func()) {
+			// an injected delivery delay of 300 ms: the message is not deliverable when it is
+			// committed, but the waiter has no timer for it unless it is woken to look
+			baseSetup(run, false, false)
+			run(&Op{Kind: "SetDelay", Name: "projects/p/subscriptions/s0", Delay: 300 * time.Millisecond})
+			return "projects/p/subscriptions/s0", func() { e.Exec(ctx, pub(1, ""), &Dump{}) }
+		}},
 		{"dead-letter-forward-into-the-topic", func(e *Env, run func(*Op) *Obs) (string, func()) {
 			baseSetup(run, false, true)
 			run(pub(1, ""))
